@@ -504,6 +504,106 @@ fn find_in_block(b: &syn::Block, path: &[String]) -> Option<Found> {
     find_in_items(&items, path)
 }
 
+// ------------------------------------------------------------------ call graph dump
+
+struct CallCollector {
+    calls: std::collections::BTreeSet<String>,
+}
+
+impl<'ast> syn::visit::Visit<'ast> for CallCollector {
+    fn visit_expr_method_call(&mut self, m: &'ast syn::ExprMethodCall) {
+        self.calls.insert(format!("{}/{}", m.method, m.args.len()));
+        syn::visit::visit_expr_method_call(self, m);
+    }
+    fn visit_expr_call(&mut self, c: &'ast syn::ExprCall) {
+        if let syn::Expr::Path(p) = &*c.func {
+            if let Some(s) = p.path.segments.last() {
+                self.calls.insert(format!("{}/{}", s.ident, c.args.len()));
+            }
+        }
+        syn::visit::visit_expr_call(self, c);
+    }
+    fn visit_item_fn(&mut self, _f: &'ast syn::ItemFn) {
+        // nested fns are listed on their own
+    }
+    fn visit_stmt(&mut self, s: &'ast syn::Stmt) {
+        // statements compiled out under the fixed feature set make no calls
+        let active = match s {
+            syn::Stmt::Local(l) => cfg_active(&l.attrs),
+            syn::Stmt::Expr(e, _) => cfg_active(expr_attrs(e)),
+            syn::Stmt::Macro(m) => cfg_active(&m.attrs),
+            syn::Stmt::Item(_) => true,
+        };
+        if active {
+            syn::visit::visit_stmt(self, s);
+        }
+    }
+}
+
+fn collect_calls(b: &syn::Block) -> Vec<String> {
+    use syn::visit::Visit;
+    let mut c = CallCollector { calls: Default::default() };
+    c.visit_block(b);
+    c.calls.into_iter().collect()
+}
+
+fn nested_fns(prefix: &str, b: &syn::Block, out: &mut Vec<(String, Vec<String>)>) {
+    for s in &b.stmts {
+        if let syn::Stmt::Item(syn::Item::Fn(f)) = s {
+            if cfg_active(&f.attrs) {
+                let name = format!("{prefix}::{}", f.sig.ident);
+                out.push((name.clone(), collect_calls(&f.block)));
+                nested_fns(&name, &f.block, out);
+            }
+        }
+    }
+}
+
+fn callgraph_items(items: &[syn::Item], out: &mut Vec<(String, Vec<String>)>) {
+    for it in items {
+        match it {
+            syn::Item::Fn(f) if cfg_active(&f.attrs) => {
+                let name = f.sig.ident.to_string();
+                out.push((name.clone(), collect_calls(&f.block)));
+                nested_fns(&name, &f.block, out);
+            }
+            syn::Item::Impl(i) if cfg_active(&i.attrs) => {
+                let ty = i.self_ty.to_token_stream().to_string().replace(' ', "");
+                let ty = ty.split('<').next().unwrap_or("").to_string();
+                for ii in &i.items {
+                    if let syn::ImplItem::Fn(f) = ii {
+                        if cfg_active(&f.attrs) {
+                            let name = format!("{ty}::{}", f.sig.ident);
+                            out.push((name.clone(), collect_calls(&f.block)));
+                            nested_fns(&name, &f.block, out);
+                        }
+                    }
+                }
+            }
+            syn::Item::Trait(t) if cfg_active(&t.attrs) => {
+                for ti in &t.items {
+                    if let syn::TraitItem::Fn(f) = ti {
+                        if let (true, Some(b)) = (cfg_active(&f.attrs), &f.default) {
+                            let name = format!("{}::{}", t.ident, f.sig.ident);
+                            out.push((name.clone(), collect_calls(b)));
+                            nested_fns(&name, b, out);
+                        }
+                    }
+                }
+            }
+            syn::Item::Mod(m) if cfg_active(&m.attrs) => {
+                if let Some((_, items)) = &m.content {
+                    // test modules are not part of the crate's behaviour
+                    if m.ident != "tests" {
+                        callgraph_items(items, out);
+                    }
+                }
+            }
+            _ => {}
+        }
+    }
+}
+
 fn fnv(s: &str) -> u64 {
     let mut h: u64 = 0xcbf29ce484222325;
     for b in s.bytes() {
@@ -532,6 +632,41 @@ fn main() {
             continue;
         }
         let f: Vec<&str> = line.split_whitespace().collect();
+        if f[0] == "@callgraph" {
+            // @callgraph <Module> <file>...   : every function of the files with the names it calls
+            let mut out = String::from(
+                "(* GENERATED by rs2v from /repo's current sources -- do not edit. *)\nFrom AM Require Import Rust.Ast.\nOpen Scope string_scope.\n\n(* function name, file, names of the methods and functions it calls *)\nDefinition calls : list (string * string * list string) := [\n",
+            );
+            let mut first_item = true;
+            for file in &f[2..] {
+                let mut fns = vec![];
+                match fs::read_to_string(repo.join(file)).ok().and_then(|s| syn::parse_file(&s).ok()) {
+                    Some(parsed) => callgraph_items(&parsed.items, &mut fns),
+                    None => fns.push(("<unparsed>".to_string(), vec![])),
+                }
+                for (name, calls) in fns {
+                    if !first_item {
+                        out.push_str(";\n");
+                    }
+                    first_item = false;
+                    write!(
+                        out,
+                        "  ({}, {}, {})",
+                        cstr(&name),
+                        cstr(file),
+                        clist(calls.iter().map(|c| cstr(c)).collect())
+                    )
+                    .unwrap();
+                }
+            }
+            out.push_str("\n].\n");
+            let target = out_dir.join(format!("{}.v", f[1]));
+            let same = fs::read_to_string(&target).map(|old| old == out).unwrap_or(false);
+            if !same {
+                fs::write(&target, out).unwrap();
+            }
+            continue;
+        }
         if f.len() != 4 {
             eprintln!("bad target line: {line}");
             std::process::exit(2);
